@@ -216,10 +216,10 @@ func tMul(a, b string) string {
 	if okx && oky && x > -(1<<31) && x < 1<<31 && y > -(1<<31) && y < 1<<31 {
 		return tInt(x * y)
 	}
-	if (okx && x == 1) {
+	if okx && x == 1 {
 		return b
 	}
-	if (oky && y == 1) {
+	if oky && y == 1 {
 		return a
 	}
 	return app("*", a, b)
